@@ -17,6 +17,7 @@
 #include <cstdio>
 #include <cstdlib>
 #include <cstring>
+#include <chrono>
 #include <execinfo.h>
 #include <dlfcn.h>
 #include <iostream>
@@ -261,13 +262,15 @@ int main(int argc, char** argv) {
         Obs ref1 = run_once(*op, A, B, p1, p2, wa, wb); refs.insert(ref1.res.canon);
         // counting callback that never requests
         GEOS_interruptRegisterCallback(cb); sites.clear(); record_sites = true;
+        auto tc0 = std::chrono::steady_clock::now();
         Obs cnt = run_once(*op, A, B, p1, p2, wa, wb); long N = cnt.inv; record_sites = false;
+        long ms = (long)std::chrono::duration_cast<std::chrono::milliseconds>(std::chrono::steady_clock::now() - tc0).count();
         Obs cnt2 = run_once(*op, A, B, p1, p2, wa, wb);
         bool v1 = false, v2 = false;
         bool cbsame = is_ref(cnt.res.canon, v1) && (cnt.err == ref0.err) && cnt.wkb_same && !cnt.flag;
         bool det = cnt2.inv == N && is_ref(cnt2.res.canon, v2);
         bool nd = refs.size() > 1;                // the operation itself is not a function of its input (nothing to do with interrupts)
-        printf("N=%ld nocb=%s nd=%d cbsame=%d det=%d ref=%016llx", N, ref0.err ? "E" : "R", nd ? 1 : 0, cbsame ? 1 : 0, det ? 1 : 0, (unsigned long long)fnv(ref));
+        printf("N=%ld ms=%ld nocb=%s nd=%d cbsame=%d det=%d ref=%016llx", N, ms, ref0.err ? "E" : "R", nd ? 1 : 0, cbsame ? 1 : 0, det ? 1 : 0, (unsigned long long)fnv(ref));
         std::vector<std::string> stacks;
         if (ks != "count") {
 #if HAVE_LSAN
